@@ -308,4 +308,43 @@ theorem boxedRemVartime_exact {n d : List Nat} (hn : WF n) (hd : WF d)
     boxedRemVartime n d = toLimbs d.length (val n % val d) :=
   boxedRemVartime_spec hrecip hn hd hd0
 
+/-! ## coverage round — `short_div`, `Reciprocal::default()` / `conditional_select` (the functions the
+     correspondence run now reaches through `c02.hook.*` and `c02.{u,b}.recip_select`) -/
+
+/-- `short_div` on the only inputs the crate feeds it (`reciprocal`'s table value: dividend `2^19 − 3·2^8` of 19
+    bits, every 9-bit divisor head `256 ≤ d9 < 512`): the shift-and-subtract loop with its branch-free `lt` /
+    `select` returns the quotient.  (The whole contract grid of bit lengths is exercised against `x / y` by
+    `c02.hook.short_div`; a proof for all bit lengths is not attempted.) -/
+theorem short_div_table_exact (d9 : Nat) (h1 : 256 ≤ d9) (h2 : d9 < 512) :
+    shortDiv recipV0Dividend 19 (d9 % U32) 9 = (2 ^ 19 - 3 * 2 ^ 8) / d9 :=
+  shortDiv_table d9 h2 h1
+
+/-- `Reciprocal::default()` is, field by field, `Reciprocal::new(Word::MAX)`: divisor `Word::MAX` (already
+    normalised, shift 0) with its true reciprocal 1. -/
+theorem default_reciprocal_is_new_max : Reciprocal.new WMAX = Reciprocal.dflt := by
+  have h1 : leadingZeros WMAX = 0 := by decide +kernel
+  have h3 : (WMAX <<< 0) % B = WMAX := by decide
+  have h2 : reciprocalImpl WMAX = 1 := by decide +kernel
+  show ({ divisorNormalized := (WMAX <<< leadingZeros WMAX) % B, shift := leadingZeros WMAX,
+          reciprocal := reciprocalImpl ((WMAX <<< leadingZeros WMAX) % B) } : Reciprocal) = _
+  rw [h1, h3, h2]; rfl
+
+/-- hence every single-limb division routine handed the default reciprocal (directly, or selected by
+    `ConditionallySelectable::conditional_select`, whose model is the field-wise choice) divides by `Word::MAX`
+    exactly, for every limb count: `div_rem_limb_with_reciprocal`, `rem_limb_with_reciprocal`, and the boxed
+    `rem_limb_with_reciprocal`. -/
+theorem default_reciprocal_exact {u : List Nat} (hu : WF u) :
+    (divRemLimbWithReciprocal u Reciprocal.dflt).1 = toLimbs u.length (val u / WMAX) ∧
+    (divRemLimbWithReciprocal u Reciprocal.dflt).2 = val u % WMAX ∧
+    remLimbWithReciprocal u Reciprocal.dflt = val u % WMAX ∧
+    boxedRemLimbWithReciprocal u Reciprocal.dflt = val u % WMAX := by
+  have h := divRemLimb_spec hrecip (d := WMAX) (by decide) (by decide) hu
+  have hb := boxedRemLimb_spec hrecip (d := WMAX) (by decide) (by decide) hu
+  unfold divRemLimb remLimb at h
+  unfold boxedRemLimb at hb
+  rw [default_reciprocal_is_new_max] at h hb
+  exact ⟨h.1, h.2.1, h.2.2, hb⟩
+
+example : divRemLimbWithReciprocal [5, 7] Reciprocal.dflt = ([7, 0], 12) := by decide +kernel
+
 end CB.P02
